@@ -268,8 +268,17 @@ impl Store {
         // historical scan, every frame appended after it has a larger id and arrives through
         // the subscription. Each frame is delivered by exactly one of the two, in id order.
         let (broadcast_rx, handoff_id) = if should_follow {
+            #[cfg(not(xs_verif))]
             let _append_guard = self.append_lock.lock().unwrap();
-            (Some(self.broadcast_tx.subscribe()), Some(scru128::new()))
+            // same lock; under a simulation a reader that would block parks at a sync point
+            #[cfg(xs_verif)]
+            let _append_guard =
+                crate::verif::lock_parking(&self.append_lock, "read.lockwait").await;
+            #[cfg(not(xs_verif))]
+            let handoff_id = scru128::new();
+            #[cfg(xs_verif)]
+            let handoff_id = crate::verif::new_id().unwrap_or_else(scru128::new);
+            (Some(self.broadcast_tx.subscribe()), Some(handoff_id))
         } else {
             (None, None)
         };
@@ -694,6 +703,14 @@ impl Store {
 
 #[cfg(xs_verif)]
 impl Store {
+    /// True while no append (and no starting follow read) holds the append lock.
+    pub fn verif_append_lock_free(&self) -> bool {
+        !matches!(
+            self.append_lock.try_lock(),
+            Err(std::sync::TryLockError::WouldBlock)
+        )
+    }
+
     /// Force every partition's memtable to be flushed to a segment (rotates the journal).
     pub fn verif_flush(&self) -> Result<(), crate::error::Error> {
         self.frame_partition.rotate_memtable_and_wait()?;
